@@ -355,6 +355,9 @@ func c15judgeWire(rec *mon.Recorder, b []byte, cell, source string) {
 		return
 	}
 	rec.Event("accepted")
+	if n := rec.Events("accepted"); n%9000 == 5 {
+		rec.Sample(fmt.Sprintf("accepted-%d", n), map[string]any{"cell": cell, "key": hexs(b)})
+	}
 	if source == "grid" {
 		rec.Class("accepted/" + cell)
 	} else {
